@@ -470,6 +470,19 @@ def check_read(case, ctx):
     ctx.nontrivial(n >= 2)
     start = pd.Timestamp(case["start"])
     stamps = [start + pd.Timedelta(hours=int(h)) for h in np.cumsum(rng.integers(1, 4, n))]
+    # "every data row, in order": the order of the file, also when it is not chronological (campaign files
+    # concatenated newest first, a single row out of place) or has repeated time stamps
+    order = case.get("order", "increasing")
+    if order == "reversed":
+        stamps = stamps[::-1]
+    elif order == "shuffled":
+        stamps = [stamps[i] for i in rng.permutation(n)]
+    elif order == "blocks" and n >= 4:
+        h = n // 2
+        stamps = stamps[h:] + stamps[:h]
+    elif order == "duplicates" and n >= 2:
+        stamps = [stamps[i // 2] for i in range(n)]
+    ctx.cls(f"order={order}")
     vals = np.round(rng.uniform(0, 30, size=(n, k)), 4)
     cols = ["time (YYYY-MM-DD-HH)", "significant wave height (m)", "zero-up-crossing period (s)", "wind speed (m s-1)"][: k + 1]
     tmp = tempfile.mkdtemp(prefix="vp_c20r_")
@@ -502,9 +515,10 @@ def check_read(case, ctx):
 def strat_read(tier):
     big = 10000 if tier == "thorough" else 2000
     return st.builds(
-        lambda seed, n, k, start: dict(seed=seed, n_rows=n, n_cols=k, start=start),
+        lambda seed, n, k, start, order: dict(seed=seed, n_rows=n, n_cols=k, start=start, order=order),
         st.integers(0, 2**31 - 1), st.one_of(st.integers(1, 50), st.integers(1, big)), st.sampled_from([2, 3]),
         st.sampled_from(["1996-01-01 00:00", "2005-12-31 22:00", "2020-02-28 23:00"]),
+        st.sampled_from(["increasing", "increasing", "reversed", "shuffled", "blocks", "duplicates"]),
     )
 
 
